@@ -165,14 +165,11 @@ func (c *ChunkComposer) RunLoop(reader io.Reader, cb OnCompleteMessage) error {
 			}
 		}
 
-		var neededSize uint32
-		if stream.header.MsgLen <= c.peerChunkSize {
-			neededSize = stream.header.MsgLen
-		} else {
-			neededSize = stream.header.MsgLen - stream.msg.Len()
-			if neededSize > c.peerChunkSize {
-				neededSize = c.peerChunkSize
-			}
+		// 注意，peerChunkSize可能在一个message的多个chunk之间被（其他chunk stream上的）Set Chunk Size修改，
+		// 所以始终按剩余长度计算
+		neededSize := stream.header.MsgLen - stream.msg.Len()
+		if neededSize > c.peerChunkSize {
+			neededSize = c.peerChunkSize
 		}
 
 		if _, err := io.ReadFull(reader, stream.msg.buff.ReserveBytes(int(neededSize))); err != nil {
